@@ -22,6 +22,15 @@ thread_local! {
     static GROUP: RefCell<Option<LintGroup>> = const { RefCell::new(None) };
 }
 
+/// lint with a freshly built linter (no state carried over from other texts)
+pub fn lint_all_rules_fresh(text: &str) -> Vec<Lint> {
+    let dict = FstDictionary::curated();
+    let doc = Document::new(text, &PlainEnglish, &dict);
+    let mut grp = LintGroup::new_curated(dict, Dialect::American);
+    grp.config = crate::generators::ConfigSpec::all_on().build();
+    grp.lint(&doc)
+}
+
 pub fn lint_all_rules(text: &str) -> Vec<Lint> {
     let dict = FstDictionary::curated();
     let doc = Document::new(text, &PlainEnglish, &dict);
@@ -51,7 +60,8 @@ pub fn test_pair(c: &PairCase, ctx: &mut CaseCtx) -> Result<(), String> {
     let plen = c.p.chars().count();
     let whole = format!("{}{}", c.p, c.d);
     let (lp, ld, lw) = match crate::core::catch(|| {
-        (lint_all_rules(&c.p), lint_all_rules(&c.d), lint_all_rules(&whole))
+        // three independent linters: caches filled by one text must not leak into another
+        (lint_all_rules_fresh(&c.p), lint_all_rules_fresh(&c.d), lint_all_rules_fresh(&whole))
     }) {
         Ok(v) => v,
         Err(_) => {
@@ -119,10 +129,50 @@ pub fn first_paragraph() -> BoxedStrategy<String> {
         .boxed()
 }
 
+fn recase(w: &str, mode: u8) -> String {
+    match mode % 4 {
+        0 => w.to_string(),
+        1 => w.to_lowercase(),
+        2 => w.to_uppercase(),
+        _ => {
+            let mut c = w.chars();
+            match c.next() {
+                Some(f) => f.to_uppercase().collect::<String>() + &c.as_str().to_lowercase(),
+                None => String::new(),
+            }
+        }
+    }
+}
+
 pub fn pair_strategy() -> BoxedStrategy<PairCase> {
-    (first_paragraph(), g::text())
-        .prop_map(|(p, d)| PairCase { p, d })
-        .boxed()
+    let independent = (first_paragraph(), g::text()).prop_map(|(p, d)| PairCase { p, d });
+    // D re-uses words of P (same word, other capitalisation / position), so that anything a rule
+    // or a cache remembers about a word of one paragraph meets the same word in the other
+    let shared = (first_paragraph(), g::sentence(), proptest::collection::vec((any::<u16>(), 0u8..4), 1..4), g::sel_str(&["", ".", "?"]))
+        .prop_map(|(p, s, picks, term)| {
+            let words: Vec<&str> = p
+                .split(|c: char| !c.is_alphanumeric() && c != '\'')
+                .filter(|w| w.chars().count() >= 2)
+                .collect();
+            let mut d = String::new();
+            for (i, (sel, mode)) in picks.iter().enumerate() {
+                if !words.is_empty() {
+                    let w = words[crate::core::pick_idx(*sel, words.len())];
+                    if i > 0 {
+                        d.push(' ');
+                    }
+                    d.push_str(&recase(w, *mode));
+                }
+            }
+            let d = format!("{d} {s}{term}");
+            PairCase { p, d }
+        });
+    let misspelt = (g::sel_str(&["definately", "teh", "recieve", "becuase", "wich", "seperate", "markdwon", "pyhton"]), 0u8..4, 0u8..4, g::plain_word(), g::plain_word())
+        .prop_map(|(w, m1, m2, a, b)| PairCase {
+            p: format!("{} a good {a}.\n\n", recase(&w, m1)),
+            d: format!("It is {} a {b} idea.", recase(&w, m2)),
+        });
+    prop_oneof![5 => independent, 3 => shared, 1 => misspelt].boxed()
 }
 
 pub fn run(run: &mut Run) {
